@@ -11,6 +11,7 @@ def main():
     ap.add_argument("--replay", default=None)
     ap.add_argument("-v", action="store_true")
     a = ap.parse_args()
+    sys.set_int_max_str_digits(0)  # models may contain very long rationals
     from . import runner
 
     if a.replay:
